@@ -313,3 +313,41 @@ Proof.
     + rewrite Hp in H. destruct H.
     + destruct (Hhold a u H) as (v & orig & E & Epc). exists a, v. rewrite Epc. split; [reflexivity|exact E].
 Qed.
+
+(* ------------------------------------------------------------------ non-vacuity *)
+Definition sN (a : nat) : nat * soracle := (a, {| so := oP; sint := false |}).
+Definition sI (a : nat) : nat * soracle := (a, {| so := oP; sint := true |}).
+(* nv_ext of SchedWakeProofs: OS thread 0 creates T = [Register; Suspend] and then wakes it; here
+   the wake-up is an interrupt (sI: retry_on_active = false), issued while T is registered and
+   still active *)
+Definition spin_sched_issue : list (nat * soracle) :=
+  [sN 0; sN 1; sN 1; sN 1; sN 1;     (* T created, active, registered (reg = Some 1) *)
+   sI 0; sN 0].                      (* Resume T as an interrupt: SIssue (wake = Some 1), now at SLoad T *)
+Definition spin_sched_spun : list (nat * soracle) :=
+  spin_sched_issue ++ [sN 0; sN 0].  (* two re-reads of the active word: nothing changes *)
+Definition spin_sched_susp : list (nat * soracle) :=
+  spin_sched_spun ++ [sN 1; sN 1; sN 1].     (* T's worker stores (suspended, 2) *)
+Definition spin_sched_woken : list (nat * soracle) :=
+  spin_sched_susp ++ [sN 1; sN 0; sN 0; sN 0].   (* the waker: load, CAS -> (pending, 3), enqueue *)
+Definition spin_sched_done : list (nat * soracle) :=
+  spin_sched_woken ++ [sN 1; sN 1; sN 1; sN 1; sN 1; sN 1; sN 1; sN 1].   (* T runs again and terminates *)
+
+(* a stuck configuration WITH a spinning waker: a task whose interrupt targets its own thread
+   object (this_thread::interrupt() is interrupt_thread(get_self_id())) re-reads its own active
+   word for ever.  (In the code the re-read loop leaves through yield_k -> do_yield's
+   interruption point when interruption is enabled; that exit is not modelled.) *)
+Definition self_ext : nat -> option (list act) :=
+  fun i => match i with 0 => Some [Spawn [Resume 0] true] | _ => None end.
+Definition self_sched : list (nat * soracle) := [sN 0; sN 1; sN 1; sN 1; sI 1; sN 1].
+
+Lemma spin_self_stuck :
+  let c := spin_run self_sched self_ext in
+  sstuck c /\ spin_at (fst c) (snd c 1) = Some 0 /\ running (bpc (snd c 1)) 0 /\
+  spin_at (fst c) (snd c 2) = None.
+Proof.
+  split; [|vm_compute; auto].
+  intros a [[i b h] s]. destruct a as [|[|a]].
+  - destruct s; vm_compute; reflexivity.
+  - vm_compute; reflexivity.
+  - destruct s, b, i; vm_compute; reflexivity.
+Qed.
